@@ -935,10 +935,15 @@ func (g *Gen) bigMergeCase() {
 	}
 	var drops []string
 	total := 0
+	crossing := g.chance(0.7)
 	for _, s := range segs {
 		nd := g.ndocs[s]
 		var xs []int
 		frac := []float64{0, 0.15, 0.3, 0.5}[g.r.Intn(4)]
+		if pre := sumInts(sizes); crossing && pre > 1024 {
+			// deletions that take the survivors below 1024 (every document has the term "common")
+			frac = 1 - float64(900+g.r.Intn(100))/float64(pre)
+		}
 		for d := 0; d < nd; d++ {
 			if g.chance(frac) {
 				xs = append(xs, d)
@@ -1481,4 +1486,12 @@ func (g *Gen) bigFileCase() {
 	g.emit("close %s", s)
 	g.emit("rmfile %s", f)
 	g.st("bigfile")
+}
+
+func sumInts(xs []int) int {
+	t := 0
+	for _, x := range xs {
+		t += x
+	}
+	return t
 }
